@@ -1,4 +1,5 @@
 # C12 - concurrent unordered / ordered associative containers never lose or duplicate keys; traversals are safe.
+#   protocol spec: spec/cont/SplitList.tla (insert-only split-ordered list: search from the bucket dummy, CAS on the predecessor, re-search on failure)
 #   abstract spec: spec/cont/SetAbs.tla; histories (insert/find/count + traversals concurrent with inserts) of the eight container types
 #   validated by TLC (TraceSet.tla)
 import os, vlib, contlib
@@ -12,4 +13,6 @@ SCEN = [('uset-const', 'uset', 'const', P1), ('uset-id', 'uset', 'id', P4), ('um
 
 def run(res, tier, seed):
     thorough = tier != 'quick'
+    for cfg in ['SplitList_PA_FALSE.cfg', 'SplitList_PA_TRUE.cfg', 'SplitList_PB_FALSE.cfg', 'SplitList_PB_TRUE.cfg']:
+        vlib.model_check(res, contlib.SD, 'MCSplitList', cfg)
     contlib.run_scenarios(res, 'C12', 'TraceSet', SCEN, 400 if not thorough else 6000, seed, 'concurrent associative container')
